@@ -1,5 +1,5 @@
 (* C16 — MessagePack round trip.  Only statements here; proofs live in Proofs/MsgpackProofs.v. *)
-From Cty Require Import Base Ty BigFloat Value Ops Refine Json Gocty Msgpack MsgpackProofs.
+From Cty Require Import Base Ty BigFloat Value Ops Refine Json Gocty Msgpack MsgpackProofs JsonRoundTrip MpRoundTrip.
 Open Scope Z_scope.
 
 (* marked values are rejected with an error *)
@@ -37,3 +37,23 @@ Print Assumptions C16_unknown_no_refs.
 Theorem C16_unknown_replay_no_panic : forall norm n items t, unknown_of_mp norm n items t <> Panic.
 Proof. exact unknown_of_mp_no_panic. Qed.
 Print Assumptions C16_unknown_replay_no_panic.
+
+(* ---- structural round trip, every depth: the fragment of C15_structural_roundtrip, and with [unk = true] also
+   unrefined unknown values of any non-dynamic type at any depth ---- *)
+Theorem C16_structural_roundtrip : forall norm unk trunc jp t p, RT norm unk t p ->
+  exists m, mp_marshal trunc (V t p) t = Ok m /\ mp_unmarshal norm jp m t = Ok (V t p).
+Proof. exact mp_roundtrip. Qed.
+Print Assumptions C16_structural_roundtrip.
+Theorem C16_structural_roundtrip_any_fuel : forall norm unk trunc jp n t p, RT norm unk t p -> (pdepth p <= n)%nat ->
+  forall f f', (n < f)%nat -> (n < f')%nat ->
+  exists m, mp_marshal_at trunc f (V t p) t = Ok m /\ mp_unmarshal_at norm jp f' m t = Ok (V t p) /\ (pdepth p <= mp_size m)%nat.
+Proof. exact mp_roundtrip_at. Qed.
+Print Assumptions C16_structural_roundtrip_any_fuel.
+Example C16_RT_nonvacuous :
+  RT (fun s => s) true (TTuple [TList TStr; TObj [([97%N], TNum)] []])
+     (PSeq [PSeq [PStr [120%N]; PUnk RNone; PNull]; PMap [([97%N], PUnk RNone)]]).
+Proof.
+  apply RT_tuple. constructor; [|constructor; [|constructor]].
+  - apply RT_list; [reflexivity|]. repeat constructor.
+  - apply RT_obj; [reflexivity|intros; reflexivity|]. repeat constructor.
+Qed.
